@@ -135,7 +135,21 @@ def execute(spec):
             s = v.schema()
             if vals and dtype_wire(s) != dtype_wire(d):
                 w["py_fail"] = f"Vector(values).schema()={s!r} differs from infer_dtype(values)={d!r}"
-            elif vals and len(vals) <= 4 and "py_fail" not in w:
+            if "py_fail" not in w and len(vals) <= 4:
+                # a Vector is itself a finite sequence of the same values: every constructor route must infer the same dtype
+                from serif import Table
+                for label, build in (("Vector(Vector(values))", lambda: Vector(v)),
+                                     ("Table({'a': Vector(values)}).a", lambda: Table({"a": v}).cols()[0]),
+                                     ("Vector(iter(values))", lambda: Vector(iter(vals)))):
+                    try:
+                        v2 = build()
+                    except Exception as e:
+                        w["py_fail"] = f"{label} raised {type(e).__name__} for values {vals!r}"
+                        break
+                    if vals and dtype_wire(v2.schema()) != dtype_wire(d):
+                        w["py_fail"] = f"{label}.schema()={v2.schema()!r} differs from infer_dtype(values)={d!r} for values {vals!r}"
+                        break
+            if vals and len(vals) <= 4 and "py_fail" not in w:
                 # C03's "equivalently": writing any element back into its own position is accepted and changes nothing
                 import warnings
                 with warnings.catch_warnings():
